@@ -351,8 +351,10 @@ struct DM {
     b: u64,
     #[tuple_key(70000)]
     c: (),
-    #[tuple_key(9)]
+    // `#[reverse]` written BEFORE `#[tuple_key(n)]`: the derive must treat both orders alike
+    // (seeded change C16-3 silently encoded this spelling Forward)
     #[reverse]
+    #[tuple_key(9)]
     d: i32,
     #[tuple_key(536870911)]
     e: String,
